@@ -185,6 +185,26 @@ Definition generate_index (hdrdec : bytes -> option (list bytes * N)) (codec : N
     end
   end.
 
+Definition generate_index_with (srt : list irec -> list irec)
+    (hdrdec : bytes -> option (list bytes * N)) (codec : N) (k : srckind) (o : gopts) (all : bytes) : res index :=
+  match idx_new codec with
+  | None => Err EOther
+  | Some i0 =>
+    match load_index hdrdec k o all with
+    | Err e => Err e
+    | Ok recs => Ok (idx_load_with srt recs i0)
+    end
+  end.
+
+(* GenerateIndexFromFile(path): os.Open (a missing / unreadable path: [None], a PathError), then
+   GenerateIndex over the os.File (a seekable source) *)
+Definition generate_index_from_file_with (srt : list irec -> list irec)
+    (hdrdec : bytes -> option (list bytes * N)) (codec : N) (o : gopts) (file : option bytes) : res index :=
+  match file with
+  | None => Err EOther
+  | Some all => generate_index_with srt hdrdec codec SrcSeek o all
+  end.
+
 (* GenerateIndex over the reader NewReader(..).DataReader() hands out (io.ReaderAt sources, and the
    generating branches of ReadOrGenerateIndex); [srt] is sort.Sort *)
 Definition generate_index_reader_at_with (srt : list irec -> list irec)
